@@ -1,45 +1,43 @@
 (* C06 - A registry never holds two collectors claiming the same series name.
    Statements only; every proof is `exact <lemma>` (proofs/RegistryProofs.v).
    Model: model/Registry.v (register / unregister / set_target_info of prometheus_client/registry.py, with the
-   suffix table of _get_names); specification vocabulary: model/RegistrySpec.v (claims, registered, occupied, Inv).
-   Collectors are abstract: env : cid -> (describe() result if any, collect() result); all theorems hold for
-   every env.  No Section hypotheses, no platform facts.
+   suffix table of _get_names); specification vocabulary: model/RegistrySpec.v (claims, registered, occupied,
+   Inv, InvS).  Collectors are abstract: env : cid -> (describe() result if any, collect() result).
+   The collectors may CHANGE during a history: run_dyn gives every step its own env, and Nop stands for any
+   step that is not a registry call (a collector changing what it describes, created series being switched
+   on or off).  The names a collector claims are those recorded when it was registered: Inv does not mention
+   env, the suffix table does not mention the created-series setting, unregister does not consult env.
+   No Section hypotheses, no platform facts.
    The main model describes the source after fixes/C06-unregister-repeated-names.diff (_get_names records each
-   name once); the pinned source is step_orig / run_orig, refuted by C06_unregister_orig_refuted. *)
+   name once) and fixes/C06-reregister-keeps-names.diff (register keeps the names recorded earlier for an
+   already registered collector); the pinned source is step_orig / run_orig and merge = false. *)
 From V Require Import lib.PyBase model.Registry model.RegistrySpec proofs.RegistryProofs.
 Open Scope N_scope.
 
 (* the invariant holds after ANY history of register / unregister / set_target_info calls, failed ones included,
-   with auto_describe on or off *)
-Theorem C06_inv_reachable : forall env a ops, Inv env (run env (empty_reg a) ops).
-Proof. exact Inv_reachable. Qed.
+   with auto_describe on or off, whatever the collectors describe at each step *)
+Theorem C06_inv_reachable : forall a eops, Inv (run_dyn (empty_reg a) eops).
+Proof. exact Inv_reachable_dyn. Qed.
 Print Assumptions C06_inv_reachable.
 
 (* ... and is preserved by every single call from any state satisfying it *)
-Theorem C06_inv_step : forall env r o, Inv env r -> Inv env (fst (step env r o)).
+Theorem C06_inv_step : forall env r o, Inv r -> Inv (fst (step env r o)).
 Proof. exact Inv_step. Qed.
 Print Assumptions C06_inv_step.
 
 (* no two registered collectors claim one name *)
-Theorem C06_no_clash : forall env r c1 c2 n, Inv env r -> claims r c1 n -> claims r c2 n -> c1 = c2.
+Theorem C06_no_clash : forall r c1 c2 n, Inv r -> claims r c1 n -> claims r c2 n -> c1 = c2.
 Proof. exact no_clash. Qed.
 Print Assumptions C06_no_clash.
 
 (* while target info is configured no registered collector claims target_info *)
-Theorem C06_no_clash_target_info : forall env r c, Inv env r -> ti r <> [] -> ~ claims r c TI_NAME.
+Theorem C06_no_clash_target_info : forall r c, Inv r -> ti r <> [] -> ~ claims r c TI_NAME.
 Proof. exact no_clash_target_info. Qed.
 Print Assumptions C06_no_clash_target_info.
 
-(* what a registered collector claims is exactly: each described family name plus the suffixes of its type
-   (names_of_desc is the table; described = describe(), or collect() under auto_describe) *)
-Theorem C06_claims_are_described : forall env r c n, Inv env r -> registered r c ->
-  (claims r c n <-> In n (names_of_desc (described (auto r) (env c)))).
-Proof. exact claims_are_described. Qed.
-Print Assumptions C06_claims_are_described.
-
 (* a failed register raises ValueError and leaves the registry exactly as it was (for any _get_names) *)
-Theorem C06_failed_register_unchanged : forall env gn r c r' e,
-  register_gen env gn r c = (r', Some e) -> r' = r /\ e = ValueError.
+Theorem C06_failed_register_unchanged : forall env gn mg r c r' e,
+  register_gen env gn mg r c = (r', Some e) -> r' = r /\ e = ValueError.
 Proof. exact register_fail_unchanged. Qed.
 Print Assumptions C06_failed_register_unchanged.
 
@@ -50,21 +48,22 @@ Print Assumptions C06_failed_set_target_info_unchanged.
 
 (* in general: any call that raises leaves the registry exactly as it was, and raises ValueError - except
    unregister of a collector that is not registered, which raises KeyError *)
-Theorem C06_failed_step_unchanged : forall env r o e, Inv env r -> snd (step env r o) = Some e ->
+Theorem C06_failed_step_unchanged : forall env r o e, Inv r -> snd (step env r o) = Some e ->
   fst (step env r o) = r
   /\ (e = ValueError \/ (e = KeyError /\ exists c, o = Unregister c /\ ~ registered r c)).
 Proof. exact failed_step_unchanged. Qed.
 Print Assumptions C06_failed_step_unchanged.
 
-(* register fails exactly when one of the names is taken by a registered collector or by target info *)
-Theorem C06_register_succeeds_iff : forall env r c, Inv env r ->
+(* register fails exactly when one of the names the collector describes NOW - each family name plus the
+   suffixes of its type, _created included unconditionally - is taken by a registered collector or target info *)
+Theorem C06_register_succeeds_iff : forall env r c, Inv r ->
   (snd (register env r c) = None <->
    forall n, In n (names_of_desc (described (auto r) (env c))) -> ~ occupied r n).
 Proof. exact register_succeeds_iff. Qed.
 Print Assumptions C06_register_succeeds_iff.
 
-(* a successful register adds the collector's names to its claims and nothing else *)
-Theorem C06_register_effect : forall env r c, Inv env r -> snd (register env r c) = None ->
+(* a successful register adds those names to the collector's claims and changes nothing else *)
+Theorem C06_register_effect : forall env r c, Inv r -> snd (register env r c) = None ->
   (forall c' n, claims (fst (register env r c)) c' n <->
                 claims r c' n \/ (c' = c /\ In n (names_of_desc (described (auto r) (env c)))))
   /\ registered (fst (register env r c)) c
@@ -73,19 +72,20 @@ Proof. exact register_effect. Qed.
 Print Assumptions C06_register_effect.
 
 (* configuring target info fails exactly when it is not configured yet and a collector claims target_info *)
-Theorem C06_set_target_info_succeeds_iff : forall env r l, Inv env r -> l <> [] ->
+Theorem C06_set_target_info_succeeds_iff : forall r l, Inv r -> l <> [] ->
   (snd (set_target_info r l) = None <-> ti r <> [] \/ ~ exists c, claims r c TI_NAME).
 Proof. exact set_target_info_succeeds_iff. Qed.
 Print Assumptions C06_set_target_info_succeeds_iff.
 
-(* unregister of a registered collector succeeds, and releases all and only its names *)
-Theorem C06_unregister_releases_exactly : forall env r c ns, Inv env r -> In (c, ns) (c2n r) ->
+(* unregister of a registered collector succeeds, and releases all and only the names recorded for it -
+   whatever the collector describes by then (unregister takes no environment) *)
+Theorem C06_unregister_releases_exactly : forall r c ns, Inv r -> In (c, ns) (c2n r) ->
   snd (unregister r c) = None
   /\ ~ registered (fst (unregister r c)) c
   /\ (forall c' n, claims (fst (unregister r c)) c' n <-> c' <> c /\ claims r c' n)
   /\ (forall n, occupied (fst (unregister r c)) n <-> occupied r n /\ ~ In n ns)
   /\ ti (fst (unregister r c)) = ti r /\ auto (fst (unregister r c)) = auto r.
-Proof. exact unregister_releases_exactly. Qed.
+Proof. exact (unregister_releases_exactly no_env). Qed.
 Print Assumptions C06_unregister_releases_exactly.
 
 (* unregister of a collector that is not registered raises KeyError and changes nothing *)
@@ -93,18 +93,30 @@ Theorem C06_unregister_unregistered : forall r c, ~ registered r c -> unregister
 Proof. exact unregister_unregistered. Qed.
 Print Assumptions C06_unregister_unregistered.
 
-(* after unregister the same collector can be registered again ... *)
-Theorem C06_reregister_after_unregister : forall env r c, Inv env r -> registered r c ->
-  snd (register env (fst (unregister r c)) c) = None.
-Proof. exact reregister_after_unregister. Qed.
-Print Assumptions C06_reregister_after_unregister.
-
-(* ... and so can any collector d that only c was blocking *)
-Theorem C06_blocked_registers_after_unregister : forall env r c d, Inv env r -> registered r c ->
+(* after unregister of c, any collector d that only c was blocking can be registered (env = the collectors as
+   they are when d is registered) *)
+Theorem C06_blocked_registers_after_unregister : forall env r c d, Inv r -> registered r c ->
   (forall n, In n (names_of_desc (described (auto r) (env d))) -> occupied r n -> claims r c n) ->
   snd (register env (fst (unregister r c)) d) = None.
 Proof. exact blocked_registers_after_unregister. Qed.
 Print Assumptions C06_blocked_registers_after_unregister.
+
+(* while no collector changes (run env = the same env at every step) the recorded names are exactly the
+   described ones ... *)
+Theorem C06_static_inv_reachable : forall env a ops, InvS env (run env (empty_reg a) ops).
+Proof. exact InvS_reachable. Qed.
+Print Assumptions C06_static_inv_reachable.
+
+Theorem C06_claims_are_described : forall env r c n, InvS env r -> registered r c ->
+  (claims r c n <-> In n (names_of_desc (described (auto r) (env c)))).
+Proof. exact claims_are_described. Qed.
+Print Assumptions C06_claims_are_described.
+
+(* ... and after unregister the same collector can be registered again *)
+Theorem C06_reregister_after_unregister : forall env r c, InvS env r -> registered r c ->
+  snd (register env (fst (unregister r c)) c) = None.
+Proof. exact reregister_after_unregister. Qed.
+Print Assumptions C06_reregister_after_unregister.
 
 (* the pinned source (before fixes/C06-unregister-repeated-names.diff): a collector describing x as counter and
    x_total as gauge records x_total twice; unregister raises KeyError half-way, leaves the collector registered
@@ -118,12 +130,24 @@ Theorem C06_unregister_orig_refuted :
 Proof. exact unregister_orig_refuted. Qed.
 Print Assumptions C06_unregister_orig_refuted.
 
+(* the pinned source (before fixes/C06-reregister-keeps-names.diff): a registered collector that now describes
+   other names is registered again; its earlier names are forgotten but stay in the name map, so after
+   unregister they are taken although nothing is registered *)
+Theorem C06_reregister_orig_refuted :
+  exists eops n,
+    let r := run_dyn_gen get_names false (empty_reg false) eops in
+    c2n r = [] /\ ti r = [] /\ In n (map fst (n2c r)).
+Proof. exact reregister_orig_refuted. Qed.
+Print Assumptions C06_reregister_orig_refuted.
+
 (* non-vacuity: a Counter-like collector 0 (x: counter), a Gauge-like collector 1 (x_total); 1 is blocked by 0,
-   registers after 0 is unregistered, and then blocks 0; target info clashes with an Info-like 'target' *)
+   registers after 0 is unregistered, and then blocks 0; target info clashes with an Info-like 'target';
+   collector 0 changing into x_total after registration still releases x, x_total, x_created on unregister *)
 Definition ex_env (c : cid) : cbeh :=
   if N.eqb c 0 then mk_cbeh (Some [(NAME_x, TCounter)]) []
   else if N.eqb c 1 then mk_cbeh (Some [(NAME_x_total, TGauge)]) []
   else mk_cbeh None [mk_family S_target TInfo [] [] []].
+Definition ex_env' (c : cid) : cbeh := mk_cbeh (Some [(NAME_x_total, TGauge)]) [].
 Example C06_example :
   let st r o := step ex_env r o in
   let r1 := fst (st (empty_reg true) (Register 0)) in
@@ -132,5 +156,6 @@ Example C06_example :
   /\ snd (st (fst (st (fst (st r1 (Unregister 0))) (Register 1))) (Register 0)) = Some ValueError
   /\ snd (st (fst (st r1 (Register 2))) (SetTargetInfo [([97], [98])])) = Some ValueError
   /\ snd (st (fst (st r1 (SetTargetInfo [([97], [98])]))) (Register 2)) = Some ValueError
-  /\ map fst (n2c r1) = [NAME_x; NAME_x_total; NAME_x ++ S_created].
+  /\ map fst (n2c r1) = [NAME_x; NAME_x_total; NAME_x ++ S_created]
+  /\ n2c (run_dyn (empty_reg true) [(ex_env, Register 0); (ex_env', Nop); (ex_env', Unregister 0)]) = [].
 Proof. vm_compute. repeat split. Qed.
